@@ -189,16 +189,23 @@ impl Mutable for Name {
 impl Union<Name> for Name {
     fn union(&self, name: &Name) -> Self {
         let names: HashSet<TrueName> = self.names.union(&name.names).cloned().collect();
+        let names: HashSet<TrueName> = if names.iter().any(TrueName::is_null) && names.len() > 1 {
+            names
+                .iter()
+                .filter(|n| !n.is_null())
+                .map(TrueName::as_nullable)
+                .collect()
+        } else {
+            names
+        };
+
         Name {
-            names: if names.iter().any(TrueName::is_null) && names.len() > 1 {
-                names
-                    .iter()
-                    .filter(|n| !n.is_null())
-                    .map(TrueName::as_nullable)
-                    .collect()
-            } else {
-                names
-            },
+            // a nullable member makes its non-nullable twin redundant
+            names: names
+                .iter()
+                .filter(|n| n.is_nullable() || !names.contains(&n.as_nullable()))
+                .cloned()
+                .collect(),
             is_interchangeable: self.is_interchangeable || name.is_interchangeable,
         }
     }
